@@ -494,6 +494,14 @@ func FamRelay[T any](c Codec[T], seed int64) SysRecord {
 	case <-time.After(3 * time.Second):
 		add(SysCall{Tag: 800, From: "S0", Method: "RelayCaller", Err: "DID-NOT-RETURN"})
 	}
+	// a handler that served link 0 may still use its request's context (now cancelled) for a call over link 1:
+	// that call fails with the context's error - an ordinary failed call on link 1
+	{
+		dctx, dcancel := context.WithCancel(ctx)
+		dcancel()
+		v, err := hubRem[1].EchoInt(dctx, 809, 1)
+		add(SysCall{Tag: 809, From: "H", Method: "CallOnOtherLinkWithDeadContext", Ret: canon(v), Err: errText(err), Done: true})
+	}
 	// link 1 is unaffected: new calls work in both directions, the calls in flight complete
 	for k, rem := range []sysRemote{spokeRem(1), hubRem[1]} {
 		pctx, pcancel := context.WithTimeout(ctx, 3*time.Second)
@@ -694,11 +702,45 @@ func FamParity(seed int64, stream bool, scenario int) SysRecord {
 		close(blockReq)
 	}
 	reqIn, resIn := newFailQ(), newFailQ()
+	reqFrames := make(chan string, 16) // the request frames the registry writes
+	once := make(chan error, 1)      // one read fails once with this error (scenario 2)
+	closeAll := make(chan struct{})  // the transport is closed (scenarios 2 and 3)
 	hooks := &rpc.LinkHooks{OnClientDisconnect: func(id string) { w.log(SysEvent{Node: "A", Kind: "hook", Method: "link-disconnect"}) }}
+	readReq := func() (json.RawMessage, error) {
+		select {
+		case f := <-reqIn.ch:
+			return f, nil
+		case e := <-once:
+			return nil, e
+		case e := <-reqIn.fail:
+			reqIn.fail <- e
+			return nil, e
+		case <-closeAll:
+			return nil, errors.New("closed")
+		}
+	}
+	readRes := func() (json.RawMessage, error) {
+		select {
+		case f := <-resIn.ch:
+			return f, nil
+		case e := <-resIn.fail:
+			resIn.fail <- e
+			return nil, e
+		case <-closeAll:
+			return nil, errors.New("closed")
+		}
+	}
 	if !stream {
 		go func() {
-			errc <- node.Reg.LinkMessage(ctx, func(b json.RawMessage) error { <-blockReq; return nil },
-				func(b json.RawMessage) error { resOut <- string(b); return nil }, reqIn.Get, resIn.Get, c.Marshal, c.Unmarshal, hooks)
+			errc <- node.Reg.LinkMessage(ctx, func(b json.RawMessage) error {
+				<-blockReq
+				select {
+				case reqFrames <- string(b):
+				default:
+				}
+				return nil
+			},
+				func(b json.RawMessage) error { resOut <- string(b); return nil }, readReq, readRes, c.Marshal, c.Unmarshal, hooks)
 		}()
 	} else {
 		in := make(chan rpc.Message[json.RawMessage], 16)
@@ -717,12 +759,29 @@ func FamParity(seed int64, stream bool, scenario int) SysRecord {
 		enc := func(v rpc.Message[json.RawMessage]) error {
 			if v.Request != nil {
 				<-blockReq
+				select {
+				case reqFrames <- string(*v.Request):
+				default:
+				}
 				return nil
 			}
 			resOut <- string(*v.Response)
 			return nil
 		}
 		dec := func(v *rpc.Message[json.RawMessage]) error {
+			if scenario >= 2 {
+				// a transport that does not know about the context: reads return when data arrives, on a transport
+				// error or when the transport is closed
+				select {
+				case m := <-in:
+					*v = m
+					return nil
+				case e := <-once:
+					return e
+				case <-closeAll:
+					return errors.New("closed")
+				}
+			}
 			select {
 			case m := <-in:
 				*v = m
@@ -742,6 +801,67 @@ func FamParity(seed int64, stream bool, scenario int) SysRecord {
 		rem = x
 	}
 	add := func(m, ret string) { rec.Calls = append(rec.Calls, SysCall{Method: m, Ret: ret, Done: true}) }
+	disconnects := func() int {
+		nd := 0
+		for _, e := range w.Events() {
+			if e.Kind == "hook" && e.Method == "link-disconnect" {
+				nd++
+			}
+		}
+		return nd
+	}
+	if scenario == 2 || scenario == 3 {
+		if scenario == 2 {
+			// a read fails ONCE with a timeout-like error of the transport (os.ErrDeadlineExceeded): whatever the link
+			// does with it, it does the same under both APIs
+			once <- os.ErrDeadlineExceeded
+		} else {
+			// the link context is cancelled while the transport stays open and idle
+			cancel()
+		}
+		select {
+		case err := <-errc:
+			add("LinkReturn", "returned "+errText(err))
+			errc <- err
+		case <-time.After(400 * time.Millisecond):
+			add("LinkReturn", "still running after 400 ms")
+		}
+		if scenario == 3 {
+			// (under the stream API ONE failing decode fails both reads, under the message API the other read is
+			// still outstanding: only the idle-transport scenario is comparable here)
+			time.Sleep(50 * time.Millisecond)
+			add("RemotesBeforeTheTransportCloses", fmt.Sprint(len(node.Remotes())))
+			add("DisconnectNotificationsBeforeTheTransportCloses", fmt.Sprint(disconnects()))
+		}
+		// the next call; the peer answers it if it sees its request
+		go func() {
+			select {
+			case f := <-reqFrames:
+				var q struct {
+					Call string `json:"call"`
+				}
+				json.Unmarshal([]byte(f), &q)
+				resIn.ch <- json.RawMessage(fmt.Sprintf(`{"call":%q,"value":3,"err":""}`, q.Call))
+			case <-closeAll:
+			}
+		}()
+		cctx, ccancel := context.WithTimeout(context.Background(), 300*time.Millisecond)
+		cv, cerr := rem.EchoInt(cctx, 797, 3)
+		ccancel()
+		add("NextCall", fmt.Sprintf("%d/%s", cv, errText(cerr)))
+		close(closeAll)
+		cancel()
+		select {
+		case <-errc:
+		case <-time.After(3 * time.Second):
+			add("LinkReturn", "DID-NOT-RETURN after the transport was closed")
+		}
+		gone := waitUntil(func() bool { return len(node.Remotes()) == 0 }, 3*time.Second)
+		add("RemoteRemovedAfterTheEnd", fmt.Sprint(gone))
+		time.Sleep(2 * time.Millisecond)
+		add("DisconnectNotifications", fmt.Sprint(disconnects()))
+		return rec
+	}
 	if scenario == 0 {
 		resIn.ch <- json.RawMessage(`{"call":5,"value":1,"err":""}`) // malformed: the call id is not a string
 		time.Sleep(5 * time.Millisecond)
@@ -1560,7 +1680,9 @@ loop:
 func FamLinkEndMore(seed int64, variant int) SysRecord {
 	what := []string{"link context cancelled while the link's connect notification is still running",
 		"response write fails with plain (handler returned a value and an error)",
-		"response write fails with plain (handler returned an error only)"}[variant]
+		"response write fails with plain (handler returned an error only)",
+		"the response of the call in flight is malformed after its call id (its err member is a number)",
+		"hooks supplied for the link have a connect function only; the peer sends garbage"}[variant]
 	rec := SysRecord{Family: "linkend", Config: "json-raw/message " + what, Seed: seed}
 	w := newWorld()
 	c := jsonRawCodec()
@@ -1606,6 +1728,72 @@ func FamLinkEndMore(seed int64, variant int) SysRecord {
 	}
 	node := NewSysNode[json.RawMessage](w, "A")
 	bad := func(b json.RawMessage) error { return errors.New("connection reset by peer") }
+	if variant == 3 || variant == 4 {
+		reqOut := make(chan string, 4)
+		var lh *rpc.LinkHooks
+		if variant == 4 {
+			lh = &rpc.LinkHooks{OnClientConnect: func(id string) {}}
+		}
+		go func() {
+			errc <- node.Reg.LinkMessage(ctx, func(b json.RawMessage) error { reqOut <- string(b); return nil }, sink, reqIn.Get, resIn.Get, c.Marshal, c.Unmarshal, lh)
+		}()
+		if !WaitRemotes(node, 1) {
+			rec.Notes = append(rec.Notes, "link did not come up")
+			return rec
+		}
+		var rem sysRemote
+		for _, x := range node.Remotes() {
+			rem = x
+		}
+		if variant == 4 {
+			reqIn.ch <- json.RawMessage(`{"call":17,"function":[],"args":"garbage"}`)
+			select {
+			case err := <-errc:
+				rec.Calls = append(rec.Calls, SysCall{Tag: 998, Method: "LinkReturn", Ret: "returned", Err: errText(err), Extra: rec.Config, Done: true})
+			case <-time.After(3 * time.Second):
+				rec.Calls = append(rec.Calls, SysCall{Tag: 998, Method: "LinkReturn", Ret: "DID-NOT-RETURN within 3 s", Extra: rec.Config})
+			}
+			cancel()
+			other := errors.New("closed")
+			reqIn.fail <- other
+			resIn.fail <- other
+			waitUntil(func() bool { return len(node.Remotes()) == 0 }, 2*time.Second) // the teardown (and its notifications) has run
+			time.Sleep(20 * time.Millisecond)
+			return rec
+		}
+		done := make(chan SysCall, 1)
+		go func() {
+			v, err := rem.EchoInt(context.Background(), 999, 1)
+			done <- SysCall{Tag: 999, From: "A", Method: "InFlightAtEnd", Ret: canon(v), Err: errText(err), Extra: rec.Config, Done: true}
+		}()
+		var q struct {
+			Call string `json:"call"`
+		}
+		select {
+		case f := <-reqOut:
+			json.Unmarshal([]byte(f), &q)
+		case <-time.After(3 * time.Second):
+			rec.Notes = append(rec.Notes, "the request was not written")
+			return rec
+		}
+		resIn.ch <- json.RawMessage(fmt.Sprintf(`{"call":%q,"value":7,"err":5}`, q.Call))
+		select {
+		case cl := <-done:
+			if cl.Err == "" {
+				cl.Extra += " (the call was completed with the value " + cl.Ret + " of a response that cannot be decoded)"
+			}
+			rec.Calls = append(rec.Calls, cl)
+		case <-time.After(3 * time.Second):
+			rec.Calls = append(rec.Calls, SysCall{Tag: 999, From: "A", Method: "InFlightAtEnd", Extra: rec.Config + ": DID-NOT-RETURN within 3 s"})
+		}
+		select {
+		case err := <-errc:
+			rec.Calls = append(rec.Calls, SysCall{Tag: 998, Method: "LinkReturn", Ret: "returned", Err: errText(err), Extra: rec.Config, Done: true})
+		case <-time.After(3 * time.Second):
+			rec.Calls = append(rec.Calls, SysCall{Tag: 998, Method: "LinkReturn", Ret: "DID-NOT-RETURN within 3 s", Extra: rec.Config})
+		}
+		return rec
+	}
 	go func() { errc <- node.Reg.LinkMessage(ctx, sink, bad, reqIn.Get, resIn.Get, c.Marshal, c.Unmarshal, nil) }()
 	if !WaitRemotes(node, 1) {
 		rec.Notes = append(rec.Notes, "link did not come up")
